@@ -50,6 +50,13 @@ pub fn start_watchdog() {
     });
 }
 
+/// the implementation keeps reading a closed stream without ever returning: report the case now
+pub fn spinning() -> ! {
+    let case = CURRENT_CASE.lock().ok().and_then(|g| g.as_ref().map(|(_, c)| c.clone())).unwrap_or_default();
+    eprintln!("HANG\t{case}");
+    std::process::exit(3);
+}
+
 fn watch<T>(case: &str, f: impl FnOnce() -> T) -> T {
     if let Ok(mut g) = CURRENT_CASE.lock() {
         *g = Some((std::time::Instant::now(), case.to_string()));
@@ -362,6 +369,11 @@ where
 }
 
 fn stream_op(codec: &str, evs: &[ReadEv]) -> Option<(String, String)> {
+    // a bare decoder is polled until its script is used up: the sticky end of the stream is for
+    // clients and servers only
+    if evs.contains(&ReadEv::EofSticky) {
+        return None;
+    }
     let (delivered, res) = match codec {
         "tcpsrv" => stream_run(verif_hooks::tcp::ServerCodec::default(), evs, |(t, u, r)| {
             format!("{}:{}:{}", hex16(*t), hex8(*u), request(r))
